@@ -201,3 +201,18 @@ check(
     "DESIGN.md section 3 C10",
     "unitlab",
 )
+
+ENGINES[-1 if ENGINES[-1]["name"] == "gridlab" else 2]["serves_properties"].append("C04")
+check(
+    "C04",
+    "exploration",
+    "For generated orthogonal grids every pair of radially consecutive points (cell-centre/x-face columns and "
+    "y-face/corner columns of every region) is joined by the harness' own high-accuracy integration of "
+    "dr/dpsi = grad(psi)/|grad(psi)|^2 on the reference field; the grid point must lie within the perpendicular-following "
+    "tolerance of the traced point, the chord must be parallel to grad(psi) within the turning of the field over the step, "
+    "and g12, g13, g_12 must vanish identically.",
+    "Trusted base: reference interpolant + scipy DOP853 at rtol 1e-11. X-point-pinned corners exempt and counted.",
+    "generated-grid PBT with reference-trajectory oracle",
+    "DESIGN.md section 3 C04",
+    "gridlab",
+)
